@@ -750,6 +750,11 @@ def deserialize_problem_as_url(
     height = int(m[3])
     body = m[4]
 
+    if width <= 0 or height <= 0:
+        if allow_failure:
+            return None
+        raise ValueError("board size must be positive")
+
     if allowed_puzzles is not None:
         if isinstance(allowed_puzzles, list):
             if puzzle not in allowed_puzzles:
